@@ -14,7 +14,7 @@ def c05(tier, seed):
     r = Result("model_checking",
                "histories: every permutation of every subset (size<=k) of 13 types sharing one file, folded through the real merge() and exported through the real T::export() with the file compared to the reference model after every step plus re-export of every member; schedules: every interleaving of 12 (thorough 15) 2-3 thread programs of real export()/export_all() calls up to the preemption bound, final tree compared to the reference model. distinct = distinct final file contents / (program, final tree) pairs",
                "explicit-state exploration of export histories + preemption-bounded stateless schedule exploration of the real exporter")
-    k_pure, k_fs, bound = (4, 3, 2) if tier == "quick" else (5, 4, 3)
+    k_pure, k_fs, bound = (5, 4, 2) if tier == "quick" else (6, 5, 3)
     m = run_sliced(e3, ["merge", "--max-pure", str(k_pure), "--max-fs", str(k_fs)])
     r.absorb(m, "merge.")
     args = ["sched", "--bound", str(bound)] + (["--thorough"] if tier == "thorough" else [])
@@ -37,7 +37,7 @@ def c06(tier, seed):
     r = Result("model_checking",
                "breadth-first search over histories of {export(T), export_all(T), export_all_to(T, spelling)} for 9 universe types (4 sharing a file, dependencies between them) x 6 settings of TS_RS_EXPORT_DIR x 3 initial directory contents; every state is reached by replaying its history on the real code from a fresh directory; states deduplicated on (model set, registry snapshot, directory tree); invariant in every state: tree == reference model of the set exported so far on top of the initial contents",
                "explicit-state BFS over export histories on the implementation")
-    depth = 2 if tier == "quick" else 3
+    depth = 3 if tier == "quick" else 4
     args = ["bfs", "--depth", str(depth)]
     if tier == "thorough":
         args += ["--all-spellings"]
